@@ -329,6 +329,10 @@ class SpecMap:
         elif o == "mutate":
             if op["k"] in self.vis:
                 self.vis[op["k"]] = op["v"]
+        elif o == "reassign":
+            # d[k] = d[k]: the documented way to persist a value that was mutated in place
+            if op["k"] in self.vis:
+                self.dur[op["k"]] = normalise(self.vis[op["k"]])
         elif o == "gc_reopen":
             self.vis = {k: normalise(v) for k, v in self.vis.items()}
             self.dur = dict(self.vis)
@@ -387,6 +391,12 @@ def run_impl(case):
                     d.reload()
                 elif o == "mutate":
                     _mutate_in_place(d[op["k"]], decode(op["v"]))
+                elif o == "reassign":
+                    # the SAME object that the dict already holds is assigned again; for the model this is `set k <current value>`
+                    rop = {"op": "pop", "k": op["k"]}      # if the key is absent both sides answer KeyError and change nothing
+                    obj = d[op["k"]]
+                    rop = {"op": "set", "k": op["k"], "v": canon(obj)}
+                    d[op["k"]] = obj
                 elif o in ("gc_reopen", "crash_reopen"):
                     fin = d._finalizer
                     if o == "crash_reopen":
@@ -457,7 +467,7 @@ def oracle(case, obs, info):
 
 # ----------------------------------------------------------------------------- cases
 KEYS = ["a", "b", "sample", "A", "a#b", "a/b", "%41", "ü", " ", ".", "..", "", "a.b", "k" * 40]
-OPS = ["set", "set", "set", "del", "pop", "pop", "popitem", "setdefault", "update", "clear", "flush", "reload", "mutate", "mutate", "gc_reopen", "crash_reopen"]
+OPS = ["set", "set", "set", "del", "pop", "pop", "popitem", "setdefault", "update", "clear", "flush", "reload", "mutate", "mutate", "reassign", "reassign", "gc_reopen", "crash_reopen"]
 
 
 def gen_case(rng):
@@ -469,7 +479,7 @@ def gen_case(rng):
         o = rng.choice(OPS)
         k = rng.choice(keys)
         present = sorted(spec.vis)
-        if o in ("del", "pop", "mutate") and present and rng.random() < 0.8:
+        if o in ("del", "pop", "mutate", "reassign") and present and rng.random() < 0.8:
             k = rng.choice(present)
         op = {"op": o}
         if o == "set":
@@ -484,6 +494,9 @@ def gen_case(rng):
             op.update(k=k, v=gen_value(rng))
         elif o == "update":
             op["kvs"] = [[rng.choice(keys), gen_value(rng, 1)] for _ in range(rng.choice([0, 1, 2, 3]))]
+        elif o == "reassign":
+            mutated = [p_["k"] for p_ in ops if p_["op"] == "mutate" and p_["k"] in present]
+            op.update(k=rng.choice(mutated) if mutated and rng.random() < 0.8 else k)
         elif o == "mutate":
             cands = [q for q in present if kind(spec.vis[q]) in ("dict", "list", "nd")]
             if not cands:
@@ -523,6 +536,7 @@ def exhaustive_cases(maxlen, both_upto=None):
         {"op": "flush"},
         {"op": "reload"},
         {"op": "mutate", "k": "b", "v": {"d": [["x", "i:2"], ["y", {"t": []}]]}},
+        {"op": "reassign", "k": "b"},
         {"op": "gc_reopen"},
         {"op": "crash_reopen"},
     ]
